@@ -343,7 +343,7 @@ fn case_variants(s: &str) -> Vec<String> {
 /// Long and deep statements (hundreds of operands, dozens of nested groups) through if / elseif /
 /// while / not, against values computed here.
 fn scale(w: &mut Worker) {
-    let counts: Vec<usize> = w.tier.pick(vec![50, 300], vec![50, 300, 3000]);
+    let counts: Vec<usize> = with_thresholds_usize(w.tier.pick(vec![50, 300], vec![50, 300, 3000]), w.tier.pick(1024, 16384));
     let mut cases: Vec<(String, Vec<String>, bool)> = vec![];
     for &n in &counts {
         let mut all_true: Vec<String> = vec![];
@@ -375,7 +375,7 @@ fn scale(w: &mut Worker) {
         bad_group[k] = "false".into();
         cases.push((format!("long-groups-last-falsy groups {}", n), bad_group, false));
     }
-    let depths: Vec<usize> = w.tier.pick(vec![10, 60], vec![10, 60, 400]);
+    let depths: Vec<usize> = with_thresholds_usize(w.tier.pick(vec![10, 60], vec![10, 60, 400]), w.tier.pick(128, 512));
     for &d in &depths {
         for leaf in ["true", "false"] {
             let mut toks: Vec<String> = vec!["(".to_string(); d];
@@ -448,10 +448,47 @@ fn history(w: &mut Worker) {
     }
 }
 
+/// The same statement evaluated again after hundreds (thousands) of other statements - and a value and
+/// a statement spelled with the same words evaluated in one run, in both orders - gives what it gave
+/// the first time (a run keeps no memory of statements).
+fn revisit(w: &mut Worker) {
+    for n in w.tier.pick(vec![300usize, 5000], vec![300usize, 5000, 70000]) {
+        // n distinct statements: i is odd <=> the statement is true
+        let stmt = |i: usize| if i % 2 == 1 { format!("v{} and ( no or yes{} )", i, i) } else { format!("v{} and ( no or 0 ) or false", i) };
+        let text = format!(
+            "wrong = set 0\nfor pass in ${{passes}}\ni = set 0\nwhile less_than ${{i}} {n}\ni = calc ${{i}} + 1\nodd = calc ${{i}} % 2\nif equals ${{odd}} 1\nr = not v${{i}} and ( no or yes${{i}} )\nexp = set false\nelse\nr = not v${{i}} and ( no or 0 ) or false\nexp = set true\nend\nif not equals ${{r}} ${{exp}}\nwrong = calc ${{wrong}} + 1\nend\nend\nend\nafter = set reached",
+            n = n
+        );
+        let _ = stmt;
+        let text = format!("passes = array 1 2 3\n{}\nrelease ${{passes}}", text);
+        scale_case(w, &format!("revisit statements {}", n), &text, &[("wrong", Some("0".into())), ("after", Some("reached".into()))]);
+    }
+    // the same words as one value and as a statement
+    for words in ["true and false", "false or 0", "0 or no", "no and yes", "false or false"] {
+        for value_first in [true, false] {
+            let as_value = format!("v = set \"{}\"\nif ${{v}}\nvalue = set truthy\nelse\nvalue = set falsy\nend\nnv = not ${{v}}", words);
+            let as_statement = format!("if {}\nstatement = set true\nelse\nstatement = set false\nend\nns = not {}", words, words);
+            let text = if value_first { format!("{}\n{}\n{}", as_value, as_statement, as_value.replace("value =", "value2 =").replace("nv =", "nv2 =")) } else { format!("{}\n{}\n{}", as_statement, as_value, as_statement.replace("statement =", "statement2 =").replace("ns =", "ns2 =")) };
+            let toks: Vec<String> = words.split(' ').map(String::from).collect();
+            let st = ref_eval(&toks).unwrap_or(false);
+            let mut expect: Vec<(&str, Option<String>)> = vec![("value", Some("truthy".into())), ("nv", Some("false".into())), ("statement", Some(st.to_string())), ("ns", Some((!st).to_string()))];
+            if value_first {
+                expect.push(("value2", Some("truthy".into())));
+                expect.push(("nv2", Some("false".into())));
+            } else {
+                expect.push(("statement2", Some(st.to_string())));
+                expect.push(("ns2", Some((!st).to_string())));
+            }
+            scale_case(w, &format!("revisit same-words {:?} {}", words, if value_first { "value-first" } else { "statement-first" }), &text, &expect);
+        }
+    }
+}
+
 pub fn worker(w: &mut Worker) {
     let tier = w.tier;
     scale(w);
     history(w);
+    revisit(w);
     let rig = Rig::new();
     // pass 1: grammar sentences with true/false, generated from the (unambiguous) grammar by length
     let lmax = tier.pick(11usize, 14usize);
@@ -475,6 +512,10 @@ pub fn worker(w: &mut Worker) {
     // words that are keywords or operators elsewhere (other shells, other languages, other places of
     // this language) are ordinary truthy values in a condition
     for s in ["then", "do", "done", "fi", "begin", "in", "is", "else", "elseif", "end", "endif", "xor", "nor", "&&", "||", "!", "==", "!=", "=", "<", ">", "-a", "-o", "-n", "-z", "?", ":", ";", ",", "{", "}", "[", "]"] {
+        pool.push(s.to_string());
+    }
+    // one value that reads like a whole statement is still one value: not empty, not a falsy word, so truthy
+    for s in ["true and false", "false or 0", "0 or no", "false and true", "not true", "( false )", "( no ) or 0", "no and yes", "a b", "false false", "0 0", "and", "or false"] {
         pool.push(s.to_string());
     }
     for s in ["0", "1", "00", "0.0", "", " ", "off", "n", "null", "False ", " false", "é", "0 ", "-0", "nO\n", "(0)", "(false)", "(no)", "()", "(x", "x)", "f(x)", ":)", "(no", "yes)", "and)", "(or"] {
@@ -575,7 +616,7 @@ pub fn crash_sig(_case: &Value, kind: &str) -> String {
     kind.to_string()
 }
 
-pub const RULE: &str = "every token sequence up to the length bound over {T,F,and,or,(,)} that the grammar cond := disj ('and' disj)* ; disj := atom ('or' atom)* ; atom := value | '(' cond? ')' accepts, spelled with true/false, through each of not (run_instruction), if, elseif, while (scripts with marker commands); then the truthiness pool (all 2^n case variants of false/no/true/yes and 27 other values, among them values that start or end with a parenthesis) in 6 statement frames; then a command in condition position handing back each value of that pool and the words and, or, (, ), not, 'true and false', 'false or true', '( false )' as its output (one value, judged by the truthiness table); then all sentences up to the second bound with 5x5 truthy/falsy spellings. Oracle: recursive-descent reference evaluator. A case is (statement, consumer); non-trivial when the statement has an operator or group; states = distinct (consumer, value, length) classes; transitions = real evaluations. Scale cases: conjunctions, disjunctions and sequences of groups with 50/300 (thorough 3000) operands, groups nested 10/60 (thorough 400) deep, each with its value flipped by the last operand, through all four consumers The truthiness pool also has every case variant of and / or / not other than the lower-case one, and 33 words that are keywords or operators elsewhere (then, do, fi, &&, ==, -a ...): all ordinary truthy values History: 70 / 300 / 1000 (thorough 20000) conditions of one kind (well-formed, malformed, failing command, unknown command, failing if, mixed) in one run, then not / if / elseif / while are judged as on a fresh state";
+pub const RULE: &str = "every token sequence up to the length bound over {T,F,and,or,(,)} that the grammar cond := disj ('and' disj)* ; disj := atom ('or' atom)* ; atom := value | '(' cond? ')' accepts, spelled with true/false, through each of not (run_instruction), if, elseif, while (scripts with marker commands); then the truthiness pool (all 2^n case variants of false/no/true/yes and 27 other values, among them values that start or end with a parenthesis) in 6 statement frames; then a command in condition position handing back each value of that pool and the words and, or, (, ), not, 'true and false', 'false or true', '( false )' as its output (one value, judged by the truthiness table); then all sentences up to the second bound with 5x5 truthy/falsy spellings. Oracle: recursive-descent reference evaluator. A case is (statement, consumer); non-trivial when the statement has an operator or group; states = distinct (consumer, value, length) classes; transitions = real evaluations. Scale cases: conjunctions, disjunctions and sequences of groups with 50/300 (thorough 3000) operands, groups nested 10/60 (thorough 400) deep, each with its value flipped by the last operand, through all four consumers The truthiness pool also has every case variant of and / or / not other than the lower-case one, and 33 words that are keywords or operators elsewhere (then, do, fi, &&, ==, -a ...): all ordinary truthy values History: 70 / 300 / 1000 (thorough 20000) conditions of one kind (well-formed, malformed, failing command, unknown command, failing if, mixed) in one run, then not / if / elseif / while are judged as on a fresh state. Revisit: 300 / 5000 (thorough 70000) distinct statements evaluated in three passes; five word sequences evaluated as one value and as a statement in one run, in both orders. The pool holds 13 values that read like whole statements";
 pub const ASSUMPTIONS: &[&str] = &["atoms that are names of registered commands are excluded (they are dispatched as commands)", "ill-formed statements are not constrained"];
 pub const EXHAUSTIVE: bool = true;
 pub const WALL_CAP_S: (u64, u64) = (50, 1500);
